@@ -45,6 +45,17 @@ Record settings := {
      builder that wrote the type name into the cache string is the same mirror
      run with p_stc = p_st.) *)
   p_stc : nat;
+  (* the associated type LexerTypesT::LexemeT of the parser builder's type
+     parameter: `type_name::<LexerTypesT::LexemeT>()` is spliced into the
+     signature of every action wrapper whose production mentions a token
+     (gen_user_actions), i.e. into the generated text under the yacc kinds that
+     have user actions.  A user who owns the LexerTypes implementation can change
+     it while the names of LexerTypesT and StorageT stay the same. *)
+  p_lx : nat;
+  (* what the cache string records about it (LEXEME_T, /repo 9933a08): the
+     correspondence run passes p_lxc = p_lx for the code as it is; 0 is the
+     code before that commit *)
+  p_lxc : nat;
   (* CTLexerBuilder *)
   l_vis : nat;     (* visibility *)
   l_ed : nat;      (* rust_edition: stored (ctbuilder.rs:443) but never read by build *)
@@ -52,24 +63,34 @@ Record settings := {
   l_ci : nat       (* a lex flag (case_insensitive): 0 unset, 1 false, 2 true *)
 }.
 
-(* ---- the cache string (rebuild_cache, lrpar ctbuilder.rs:1222-1237) ---- *)
-(* BUILD_TIME, DERIVED_MOD_NAME and GRAMMAR_PATH are constants of a history
-   (one lrpar build, one grammar path).  Everything else that is written: *)
+(* ---- the cache string (rebuild_cache, lrpar ctbuilder.rs) -------------- *)
+(* The keys of `cache_info` (checks/C18.py part static_cache_coverage compares this
+   list with the source text on every run):
+     BUILD_TIME DERIVED_MOD_NAME GRAMMAR_PATH        constants of a history (one lrpar
+                                                     build, one grammar path; the derived
+                                                     name is a function of MOD_NAME + path)
+     ENCODING_CONFIG c_ser   MOD_NAME c_mod          RECOVERER c_rec     YACC_KIND c_yk
+     ERROR_ON_CONFLICTS c_eoc  SHOW_WARNINGS c_sw    WARNINGS_ARE_ERRORS c_wae
+     RUST_EDITION c_ed       STORAGE_T + LEXER_TYPES_T c_stc             LEXEME_T c_lxc
+     RULE_IDS_MAP c_toks     VISIBILITY c_vis
+   Builder fields that rebuild_cache ignores by its own comments: grammar_src, from_ast
+   (feature `_unstable_api`, not in the operation set), output_path, inspect_rt
+   (C18/InspModel.v), inspect_callback (cfg(test)), phantom. *)
 Record cache := {
   c_ser : nat; c_mod : nat; c_rec : nat; c_yk : nat; c_eoc : bool; c_sw : bool;
-  c_wae : bool; c_ed : nat; c_toks : nat; c_vis : nat; c_stc : nat
+  c_wae : bool; c_ed : nat; c_toks : nat; c_vis : nat; c_stc : nat; c_lxc : nat
 }.
 
 Definition cache_of (c : settings) (toks : nat) : cache :=
   {| c_ser := p_ser c; c_mod := p_mod c; c_rec := p_rec c; c_yk := p_yk c;
      c_eoc := p_eoc c; c_sw := p_sw c; c_wae := p_wae c; c_ed := p_ed c;
-     c_toks := toks; c_vis := p_vis c; c_stc := p_stc c |}.
+     c_toks := toks; c_vis := p_vis c; c_stc := p_stc c; c_lxc := p_lxc c |}.
 
 Definition cache_eqb (a b : cache) : bool :=
   (c_ser a =? c_ser b) && (c_mod a =? c_mod b) && (c_rec a =? c_rec b) &&
   (c_yk a =? c_yk b) && Bool.eqb (c_eoc a) (c_eoc b) && Bool.eqb (c_sw a) (c_sw b) &&
   Bool.eqb (c_wae a) (c_wae b) && (c_ed a =? c_ed b) && (c_toks a =? c_toks b) &&
-  (c_vis a =? c_vis b) && (c_stc a =? c_stc b).
+  (c_vis a =? c_vis b) && (c_stc a =? c_stc b) && (c_lxc a =? c_lxc b).
 
 (* ---- generated files --------------------------------------------------- *)
 (* <grammar>.y.rs: code generated from the grammar text under yacckind,
@@ -77,11 +98,22 @@ Definition cache_eqb (a b : cache) : bool :=
    which are also in the trailing CACHE INFORMATION comment [yc_cache] — and
    under the type parameter StorageT/LexerTypesT ([yc_st]: `type_name::<StorageT>()`
    is spliced into the code, gen_parse_function 1248-1249, gen_rule_consts, …)
-   which is NOT in the cache string. *)
-Record ycontent := { yc_src : ysrc; yc_cache : cache; yc_st : nat }.
+   and, under the yacc kinds with user actions, under LexerTypesT::LexemeT
+   ([yc_lx]).  Whether the two type names are in the cache string is what
+   [p_stc] / [p_lxc] say. *)
+Record ycontent := { yc_src : ysrc; yc_cache : cache; yc_st : nat; yc_lx : nat }.
+
+(* yacc kinds whose generated text has action wrappers (output_file:
+   `Original(UserAction) | Grmtools` -> gen_wrappers / gen_user_actions); codes of
+   the correspondence run: 0 NoAction, 1 GenericParseTree, 2 UserAction, 3 Grmtools.
+   (Every grammar of the correspondence run has a token in some production.) *)
+Definition mentions_lexemet (yk : nat) : bool := 2 <=? yk.
+
+(* the part of LexemeT the generated text depends on *)
+Definition eff_lx (c : settings) : nat := if mentions_lexemet (p_yk c) then p_lx c else 0.
 
 Definition gen_y (y : ysrc) (c : settings) : ycontent :=
-  {| yc_src := y; yc_cache := cache_of c (y_toks y); yc_st := p_st c |}.
+  {| yc_src := y; yc_cache := cache_of c (y_toks y); yc_st := p_st c; yc_lx := eff_lx c |}.
 
 (* <lexer>.l.rs: lrlex ctbuilder.rs:780-908 — rules of the lexer text with the
    token ids of the parser's token map, lex flags, visibility, module name,
@@ -122,7 +154,10 @@ Inductive errkind :=
 | EYSyntax    (* grammar does not parse: lrpar 733-744, 816-828 *)
 | EYWarn      (* warnings_are_errors and warnings: 784-797 *)
 | EYConflict  (* error_on_conflicts and unexpected conflicts: 905-928 *)
-| ELSyntax.   (* lexer does not parse: lrlex 500-513, 534-548 *)
+| ELSyntax    (* lexer does not parse: lrlex 500-513, 534-548 *)
+| EInspect.   (* the `inspect_rt` callback returned Err (C18/InspModel.v: the
+                 `test_files` check CTLexerBuilder installs); never produced by
+                 the definitions of this file *)
 
 (* parser stage: Ok (regenerated) or an error *)
 Inductive pres := POk (regenerated : bool) | PErr (e : errkind).
@@ -163,10 +198,13 @@ Definition upd_out (s : state) (yo : option (ycontent * nat)) (lo : option (lcon
   {| s_y := s_y s; s_ymt := s_ymt s; s_l := s_l s; s_lmt := s_lmt s; s_cfg := s_cfg s;
      s_yout := yo; s_lout := lo; s_now := t |}.
 
-Definition build_step (m : mode) (fixed : bool) (s : state) (t : nat) : state * outcome bres :=
+(* [pb] is what the parser builder did (parser_build below; C18/InspModel.v runs
+   the same script with a parser builder that also calls the inspector) *)
+Definition build_step_with (pb : pres * option (ycontent * nat) * bool)
+  (m : mode) (fixed : bool) (s : state) (t : nat) : state * outcome bres :=
   match m with
   | MParser =>
-      let '(pr, yo, yw) := parser_build fixed s t in
+      let '(pr, yo, yw) := pb in
       (upd_out s yo (s_lout s) t,
        Done {| b_pstage := Some pr;
                b_err := match pr with POk _ => None | PErr e => Some e end;
@@ -178,7 +216,7 @@ Definition build_step (m : mode) (fixed : bool) (s : state) (t : nat) : state * 
         (upd_out s (if fixed then None else s_yout s) (if fixed then None else s_lout s) t,
          Done {| b_pstage := None; b_err := Some ELSyntax; b_ywritten := false; b_lwritten := false |})
       else
-        let '(pr, yo, yw) := parser_build fixed s t in                     (* 628: ctp.build()? *)
+        let '(pr, yo, yw) := pb in                                         (* 628: ctp.build()? *)
         match pr with
         | PErr e =>
             (upd_out s yo (if fixed then None else s_lout s) t,
@@ -203,6 +241,9 @@ Definition build_step (m : mode) (fixed : bool) (s : state) (t : nat) : state * 
               end
         end
   end.
+
+Definition build_step (m : mode) (fixed : bool) (s : state) (t : nat) : state * outcome bres :=
+  build_step_with (parser_build fixed s t) m fixed s t.
 
 (* ---- operations of a history ------------------------------------------- *)
 Inductive op :=
